@@ -20,7 +20,11 @@
    Model (Model/Jet.v): transcription of jet_expansion_algorithms.py and of
    args_autonomous_and_jet_compatible; jax.experimental.jet on a polynomial
    program is composition of truncated power series (an oracle: its conformance
-   is measured by the correspondence check harness/c10.py).  *)
+   is measured by the correspondence check harness/c10.py).
+   jetexpand_ode_via_jvp is modelled as coded after the repair of finding F4
+   ([via_jvp_fixed_model]); the pre-repair recursion ([via_jvp_model], t closed
+   over) is kept as documentation of the defect.  jetexpand_ode_doubling_unroll
+   still closes over t (known finding).  *)
 From Coq Require Import List Arith Bool QArith Qcanon.
 From PD Require Import Base.Field Base.Matrix Model.Poly Base.Series Spec.ODESeries Model.Jet
   Proofs.JetProofs.
@@ -74,10 +78,25 @@ Theorem C10_padded_scan_returns_the_solution_derivatives :
     padded_scan_model v inits t0 num = Some (spec_derivs v t0 inits num).
 Proof. exact @padded_scan_correct. Qed.
 
-(* T10.3  jetexpand_ode_via_jvp (F_0 = f, F_{n+1} = <grad_x F_n, (x_1, .., x_{k-1}, f)>,
-   t closed over): correct for AUTONOMOUS fields, i.e. when no monomial of f
-   has a non-zero exponent at the time variable (index k*d). *)
-Theorem C10_via_jvp_correct_for_autonomous_fields :
+(* T10.3  jetexpand_ode_via_jvp AS CODED NOW (repo commit 46ebe36; Model/Jet.v
+   [via_jvp_fixed_model]): F_0 = f,
+       F_{n+1} = <grad_x F_n, (x_1, .., x_{k-1}, f)> + dF_n/dt,
+   t being handed to every jvp as one more primal with tangent one.  Correct for
+   EVERY polynomial field of order k >= 1, time-dependent or not, every num. *)
+Theorem C10_via_jvp_with_time_tangent_is_correct :
+  forall (F : Type) (H : FieldOps F) (FL : FieldLaws F)
+         (v : @vfield F) (t0 : F) (inits : list (list F)) (num : nat),
+    1 <= vf_k v ->
+    (length (vf_f v) = vf_d v /\ length inits = vf_k v /\
+     forall j, j < vf_k v -> length (nth j inits []) = vf_d v) ->
+    via_jvp_fixed_model v inits t0 num = Some (spec_derivs v t0 inits num).
+Proof. exact @via_jvp_fixed_correct. Qed.
+
+(* Documentation of the repaired defect F4.  Before the repair the routine closed
+   over t (Model/Jet.v [via_jvp_model]: F_{n+1} = <grad_x F_n, (x_1,..,f)> only).
+   That recursion is correct for AUTONOMOUS fields (no monomial of f has a
+   non-zero exponent at the time variable, index k*d) ... *)
+Theorem C10_via_jvp_closed_over_time_correct_for_autonomous_fields :
   forall (F : Type) (H : FieldOps F) (FL : FieldLaws F)
          (v : @vfield F) (t0 : F) (inits : list (list F)) (num : nat),
     1 <= vf_k v ->
@@ -88,25 +107,24 @@ Theorem C10_via_jvp_correct_for_autonomous_fields :
     via_jvp_model v inits t0 num = Some (spec_derivs v t0 inits num).
 Proof. exact @via_jvp_correct_autonomous. Qed.
 
-(* T10.3_refuted  ... and WRONG for time-dependent fields on the current tree
-   (finding F4): for u' = t u + t^2, u(1/2) = 1 the derivatives are
-   (1, 3/4, 19/8, 75/16) while the routine returns (1, 3/4, 3/8, 3/16). *)
-Theorem C10_via_jvp_time_dependent_refuted :
+(* ... and WRONG for time-dependent fields: for u' = t u + t^2, u(1/2) = 1 the
+   derivatives are (1, 3/4, 19/8, 75/16) while it returns (1, 3/4, 3/8, 3/16). *)
+Theorem C10_via_jvp_closed_over_time_refuted :
   exists (v : @vfield Qc) (inits : list (list Qc)) (t0 : Qc) (num : nat),
     1 <= vf_k v /\
     (length (vf_f v) = vf_d v /\ length inits = vf_k v /\
      forall j, j < vf_k v -> length (nth j inits []) = vf_d v) /\
     via_jvp_model v inits t0 num <> Some (spec_derivs v t0 inits num).
-Proof. exact P_via_jvp_time_dependent_refuted. Qed.
+Proof. exact P_via_jvp_closed_over_time_refuted. Qed.
 
-Theorem C10_via_jvp_witness_values :
+Theorem C10_via_jvp_closed_over_time_witness_values :
   map (map (fun x : Qc => this x)) (spec_derivs witness_field witness_t0 witness_inits 3)
     = [[1 # 1]; [3 # 4]; [19 # 8]; [75 # 16]]%Q /\
   match via_jvp_model witness_field witness_inits witness_t0 3 with
   | Some l => map (map (fun x : Qc => this x)) l = [[1 # 1]; [3 # 4]; [3 # 8]; [3 # 16]]%Q
   | None => False
   end.
-Proof. exact P_via_jvp_witness_values. Qed.
+Proof. exact P_via_jvp_closed_over_time_witness_values. Qed.
 
 (* T10.4  jetexpand_ode_doubling_unroll (Newton doubling on normalised coefficients:
    jet of the zero-padded coefficients, jvp of that jet, division by the order,
@@ -134,7 +152,8 @@ Theorem C10_doubling_time_dependent_refuted :
     doubling_model v inits t0 nd <> Some (spec_derivs v t0 inits (2 ^ (S nd) - 2)).
 Proof. exact P_doubling_time_dependent_refuted. Qed.
 
-(* T10.5  The routines agree on their common domain. *)
+(* T10.5  The routines agree: padded scan, unroll and via_jvp (as coded now) on
+   EVERY field; doubling on autonomous first-order fields. *)
 Theorem C10_routines_agree :
   forall (F : Type) (H : FieldOps F) (FL : FieldLaws F)
          (v : @vfield F) (t0 : F) (inits : list (list F)) (num : nat),
@@ -142,10 +161,8 @@ Theorem C10_routines_agree :
     (length (vf_f v) = vf_d v /\ length inits = vf_k v /\
      forall j, j < vf_k v -> length (nth j inits []) = vf_d v) ->
     padded_scan_model v inits t0 num = unroll_model v inits t0 num /\
-    ((forall p, In p (vf_f v) ->
-        forall m, In m p -> nth (vf_k v * vf_d v) (snd m) 0 = 0) ->
-     via_jvp_model v inits t0 num = unroll_model v inits t0 num).
-Proof. exact @routines_agree. Qed.
+    via_jvp_fixed_model v inits t0 num = unroll_model v inits t0 num.
+Proof. exact @routines_agree_all_fields. Qed.
 
 Theorem C10_doubling_agrees_with_unroll_on_autonomous_first_order_fields :
   forall (F : Type) (H : FieldOps F) (FL : FieldLaws F)
@@ -158,20 +175,7 @@ Theorem C10_doubling_agrees_with_unroll_on_autonomous_first_order_fields :
     doubling_model v inits t0 nd = unroll_model v inits t0 (2 ^ (S nd) - 2).
 Proof. exact @doubling_agrees_with_unroll. Qed.
 
-(* T10.6  The candidate repair of jetexpand_ode_via_jvp -- t handed to jvp as one
-   more primal with tangent 1, i.e. F_{n+1} = <grad_x F_n, (x_1,..,f)> + dF_n/dt
-   ([via_jvp_fixed_model], Model/Jet.v) -- is correct for EVERY
-   polynomial field, time-dependent or not. *)
-Theorem C10_via_jvp_with_time_tangent_is_correct :
-  forall (F : Type) (H : FieldOps F) (FL : FieldLaws F)
-         (v : @vfield F) (t0 : F) (inits : list (list F)) (num : nat),
-    1 <= vf_k v ->
-    (length (vf_f v) = vf_d v /\ length inits = vf_k v /\
-     forall j, j < vf_k v -> length (nth j inits []) = vf_d v) ->
-    via_jvp_fixed_model v inits t0 num = Some (spec_derivs v t0 inits num).
-Proof. exact @via_jvp_fixed_correct. Qed.
-
-(* T10.7  The pytree wrapper's bookkeeping (model of the flattening order only:
+(* T10.6  The pytree wrapper's bookkeeping (model of the flattening order only:
    ravel = natural coordinates re-ordered by [perm], Model/Jet.v): unravel after
    ravel is the identity whenever [perm] lists every coordinate 0..d-1. *)
 Theorem C10_pytree_unravel_inverts_ravel :
@@ -184,12 +188,12 @@ Print Assumptions C10_formal_solution_is_unique.
 Print Assumptions C10_recursion_computes_a_formal_solution.
 Print Assumptions C10_unroll_returns_the_solution_derivatives.
 Print Assumptions C10_padded_scan_returns_the_solution_derivatives.
-Print Assumptions C10_via_jvp_correct_for_autonomous_fields.
-Print Assumptions C10_via_jvp_time_dependent_refuted.
-Print Assumptions C10_via_jvp_witness_values.
+Print Assumptions C10_via_jvp_with_time_tangent_is_correct.
+Print Assumptions C10_via_jvp_closed_over_time_correct_for_autonomous_fields.
+Print Assumptions C10_via_jvp_closed_over_time_refuted.
+Print Assumptions C10_via_jvp_closed_over_time_witness_values.
 Print Assumptions C10_doubling_correct_for_autonomous_first_order_fields.
 Print Assumptions C10_doubling_time_dependent_refuted.
 Print Assumptions C10_routines_agree.
 Print Assumptions C10_doubling_agrees_with_unroll_on_autonomous_first_order_fields.
-Print Assumptions C10_via_jvp_with_time_tangent_is_correct.
 Print Assumptions C10_pytree_unravel_inverts_ravel.
